@@ -18,6 +18,7 @@ import (
 
 	"github.com/elastic/go-libaudit/v2/auparse"
 	"github.com/metal-toolbox/auditevent"
+	"go.uber.org/zap"
 
 	"github.com/metal-toolbox/audito-maldito/internal/common"
 	"github.com/metal-toolbox/audito-maldito/internal/health"
@@ -335,6 +336,7 @@ func checkHistory(plan Plan, ops []HOp, res *histResult, reuse bool) []finding {
 var procStart = time.Now().UTC()
 
 type apiExec struct {
+	debugLog  bool // run the tracker with a debug-level logger
 	realClock bool // C16: cut-offs are real clock readings between operations
 }
 
@@ -350,7 +352,11 @@ func nowAdvance(prev time.Time) time.Time {
 func (x apiExec) run(plan Plan, ops []HOp) *histResult {
 	rec := vlib.NewRec()
 	rec.NoGid = true
-	tr := sessiontracker.NewSessionTracker(rec.Writer(), nil)
+	var lg *zap.SugaredLogger
+	if x.debugLog {
+		lg = debugLogger()
+	}
+	tr := sessiontracker.NewSessionTracker(rec.Writer(), lg)
 	res := &histResult{emitted: make([][]vlib.Call, len(ops)), err: make([]error, len(ops))}
 	far := time.Date(2100, 1, 1, 0, 0, 0, 0, time.UTC)
 	// "older than every arrival": every arrival of this process happened after
